@@ -97,6 +97,7 @@ impl Value {
     pub fn integer(self) -> Result<i64> {
         match self {
             Self::Number(val) => val
+                .normalize()
                 .to_string()
                 .parse()
                 .map_or(Err(Error::InvalidInteger), |num| Ok(num)),
